@@ -19,6 +19,8 @@ NShards == IF IOEnv.VT_NSHARDS = "16" THEN 16 ELSE IF IOEnv.VT_NSHARDS = "8" THE
 ShardNo == LET t == IOEnv.VT_SHARD IN
            CHOOSE k \in 0..15 : ToString(k) = t
 EmitOn == IOEnv.VT_EMIT = "1"
+\* optional cap on the input length of a family (quick tier)
+LenCap(n) == IF IOEnv.VT_MAXLEN = "3" THEN 3 ELSE IF IOEnv.VT_MAXLEN = "4" THEN (IF n > 4 THEN 4 ELSE n) ELSE n
 
 ----------------------------------------------------------------------------
 \* constructors
@@ -162,8 +164,8 @@ Strings(A, n) == IF n = 0 THEN << <<>> >>
 Inputs == CASE Family = "ops" -> Strings(<<a, b, SP>>, 4)
             [] Family = "asg" -> Strings(<<a, b, 49, SP, 44>>, 4)
             [] Family = "asg2" -> Strings(<<a, b, 49, 48, SP>>, 4)
-            [] Family = "kinds" -> Strings(<<a, b, 49, SP>>, 5)
-            [] Family = "mods" -> Strings(<<a, b, SP, NL, 35>>, 5)
+            [] Family = "kinds" -> Strings(<<a, b, 49, SP>>, LenCap(5))
+            [] Family = "mods" -> Strings(<<a, b, SP, NL, 35>>, LenCap(5))
             [] Family = "opts" -> Strings(<<a, b, 49, x, SP, TAB>>, 3)
             [] Family = "icase" -> Strings(<<a, 65, b, 43, SP>>, 4)
             [] Family = "kwd" -> Strings(<<a, b, 49, 43, SP>>, 4)
